@@ -45,10 +45,17 @@ def modelTranslated (tcp auth : Bool) (m : Model) : Bool :=
   m.permissions.all (fun rl => rl.all (permTranslated tcp)) &&
   m.principals.all (fun rl => rl.all (prinTranslated tcp auth))
 
+/-- Extended generators whose aggregated matcher is proved exact (`matcher_correct_jwt_claims`,
+    `matcher_correct_envoy_filter`). -/
+def Gen.extInScope : Gen → Bool
+  | .requestAudiences | .requestPresenter | .requestClaim | .envoyFilter => true
+  | _ => false
+
 /-- A model rule inside the proven scope: a non-extended generator whose values satisfy
-    `prinValueOK` (wildcard-free namespaces, '/'-free trust domains, ...). -/
+    `prinValueOK` (wildcard-free namespaces, '/'-free trust domains, ...), or one of the extended
+    generators proved exact (JWT audiences / presenter / claims, experimental metadata). -/
 def mruleInScope (mr : MRule) : Bool :=
-  !mr.g.extended && (mr.values ++ mr.notValues).all (prinValueOK mr.g)
+  (!mr.g.extended || mr.g.extInScope) && (mr.values ++ mr.notValues).all (prinValueOK mr.g)
 
 def ruleInScope (pns : Str) (r : Rule) : Bool :=
   match newModel pns r with
@@ -59,10 +66,12 @@ def ruleInScope (pns : Str) (r : Rule) : Bool :=
     translation is proved exact. -/
 def inScope (ps : List Policy) : Bool := ps.all fun p => p.rules.all (ruleInScope p.ns)
 
+/-- Trust-domain migration changes nothing for this rule, in the compiler and in the semantics. -/
 def migrationNoopB (o : BuildOpts) (pns : Str) (r : Rule) : Bool :=
-  match newModel pns r with
-  | none => true
-  | some m => migrateTrustDomain o.bundle (nBasePrincipals pns r) m == m
+  (match newModel pns r with
+   | none => true
+   | some m => migrateTrustDomain o.bundle (nBasePrincipals pns r) m == m) &&
+  expandRule o.bundle r == r
 
 def ruleTranslatedB (o : BuildOpts) (pns : Str) (r : Rule) : Bool :=
   match newModel pns r with
